@@ -197,6 +197,22 @@ REGISTRY = {
         "assumptions": ["AddressSanitizer instruments the crate and the harness, not the prebuilt standard library and C dependencies; it reports what the explored executions touch, nothing more",
                         "the kernel holds a reference from the submission push to the completion entry (ghost state of Model.InFlight)"],
     },
+    "C18": {
+        "title": "calls, flush and close always terminate (partial)",
+        "teq": [
+            {"engine": "term", "quick": {"n": 2}, "thorough": {"tier": "thorough"}, "oracle": True, "mismatch_is_failure": False, "timeout": 3400,
+             "nontrivial": lambda case, res: case.startswith("note term"),
+             "distinct_key": lambda case, res: case,
+             "what": "contention scenarios, each in its own process with every call under a 20 s watchdog and the whole scenario under a 90 s limit: 3-8 threads with half of them calling flush() in a loop against writers; a device of 24-40 blocks that fills up; a device whose writes and fsyncs start failing at a random call (both I/O paths); the TTL sweeper running against writers of 1 s TTLs; a general mix with range scans and increments; each ends with a write followed at once by the drop of the store (shutdown with work pending). A call or a shutdown that does not come back is the violation"},
+            {"engine": "conc", "quick": {"n": 40, "mode": "hist", "seedoff": 18}, "thorough": {"n": 1000, "mode": "hist", "seedoff": 18}, "oracle": True, "mismatch_is_failure": False, "timeout": 3400,
+             "nontrivial": lambda case, res: res == "lin=1", "distinct_key": lambda case, res: case,
+             "what": "the C07 controller holds one thread inside each optimistic-read / guarded-swap window while the others run (every grant under a 20 s watchdog): a parked thread must never block the others, and every call returns"},
+        ],
+        "nontrivial_rule": "a case is one scenario run to completion (term) or one controlled/free history (conc); all of them count: the property is that they finish",
+        "assumptions": ["tools/gen_locks.py reads the nesting relation off the source text (let-bound guards held to the end of their block, temporaries for their statement, calls resolved by name inside a file): an approximation, stated in DESIGN section 7",
+                        "scc bucket guards, crossbeam epochs, channels and condition variables are not in the relation",
+                        "the watchdog limits (20 s per call, 90 s per scenario) are far above what the scenarios need in this sandbox"],
+    },
     "C09": {
         "title": "I/O failures are reported, contained and never destroy durable data",
         "teq": [
